@@ -355,7 +355,8 @@ class Grammar:
         nodes = list()
         for node in self.considered_subtypes:
             if node in weights:  # a supplied class the starting symbol does not reach has no normalised weight
-                node.__dict__["__gengy__"]["weight"] = weights[node]
+                # through the accessor: usable_grammar also supplies the built-in field types, which carry no metadata
+                get_gengy(node)["weight"] = weights[node]
             nodes.append(node)
         self.__init__(starting_symbol, nodes, self.expansion_depthing)
         self.register_type(starting_symbol)
